@@ -57,12 +57,18 @@ structure SiteInfo where
   name : String
   /-- the path to Next*Addresses is dominated by `w.newAddrMtx.Lock()` and followed by the matching Unlock -/
   holdsMutex : Bool
+  /-- which mutex: "recv.newAddrMtx" = field `newAddrMtx` of the method's own receiver (the one `Wallet`); all sites
+  must share it -/
+  mutex : String
   /-- reaches NextExternalAddresses / NextInternalAddresses -/
   ext : Bool
   int : Bool
   /-- how the extractor recognised the locking: "defer", "explicit", "none", or "unrecognised:<why>" -/
   shape : String
   deriving DecidableEq, Repr
+
+/-- the site serialises on THE wallet-wide mutex -/
+def SiteInfo.ok (s : SiteInfo) : Bool := s.holdsMutex && s.mutex == "recv.newAddrMtx"
 
 /-- The program one caller runs (site + arguments/environment of this call). -/
 structure Caller where
